@@ -63,7 +63,71 @@ def anchor_filter(prop, result):
     return result
 
 
-def run_rules(mod, project, tier="quick", result=None):
+_SCOPE = None
+
+
+def _scope():
+    global _SCOPE
+    if _SCOPE is None:
+        path = os.path.join(os.path.dirname(os.path.abspath(__file__)), "scope.json")
+        try:
+            with open(path) as f:
+                _SCOPE = json.load(f)
+        except Exception:
+            _SCOPE = {}
+    return _SCOPE
+
+
+def params_read(fn_node):
+    """parameters of a function that are read somewhere in its body (nested functions included)"""
+    import ast as _ast
+    a = fn_node.args
+    params = [x.arg for x in a.posonlyargs + a.args + a.kwonlyargs]
+    if a.vararg:
+        params.append(a.vararg.arg)
+    if a.kwarg:
+        params.append(a.kwarg.arg)
+    used = set()
+    for st in fn_node.body:
+        for n in _ast.walk(st):
+            if isinstance(n, _ast.Name) and isinstance(n.ctx, (_ast.Load, _ast.Del)) and n.id in params:
+                used.add(n.id)
+            elif isinstance(n, _ast.AugAssign) and isinstance(n.target, _ast.Name) and n.target.id in params:
+                used.add(n.target.id)
+    return used
+
+
+def generic_param_rule(prop, project, result):
+    """Cxx.G1: every parameter that the functions in this property's scope *read* on the confirmed tree is still read.
+    A declared option that nothing reads cannot influence the result: the caller's choice is silently ignored."""
+    table = _scope().get(prop)
+    if not table:
+        return
+    r = result.rule("%s.G1" % prop, "options read on the confirmed tree are still read (no silently dropped option)")
+    index = {}
+    for f in project.all_functions():
+        index[f.qualname] = f
+    missing_fns = 0
+    for q, used_ref in table.items():
+        f = index.get(q)
+        if f is None:
+            missing_fns += 1
+            continue
+        r.instance(f)
+        now = params_read(f.node)
+        have = set(f.params) | {x for x in (getattr(f.node.args.vararg, "arg", None), getattr(f.node.args.kwarg, "arg", None)) if x}
+        for prm in used_ref:
+            if prm not in have:
+                continue  # the parameter itself was removed: a signature change, not a dropped read
+            if prm in now:
+                r.ok()
+            else:
+                r.violation(f, f.node, "parameter `%s` of %s is declared but no longer read anywhere in the function: whatever the caller passes is silently ignored" % (prm, f.short))
+    if missing_fns and missing_fns * 2 > len(table):
+        result.error("%s.G1: %d of %d functions in the recorded scope no longer exist" % (prop, missing_fns, len(table)))
+
+
+def run_rules(mod, project, tier="quick", result=None, generic=True):
     result = result or Result(mod.PROP, tier)
     rules = list(mod.RULES)
     if tier == "thorough":
@@ -78,6 +142,11 @@ def run_rules(mod, project, tier="quick", result=None):
         except Exception as e:  # a crash of the analysis is never a verdict
             tb = traceback.extract_tb(sys.exc_info()[2])[-1]
             result.error("%s: internal error %s: %s (%s:%d)" % (fn.__name__, type(e).__name__, e, os.path.basename(tb.filename), tb.lineno))
+    if generic:
+        try:
+            generic_param_rule(mod.PROP, project, result)
+        except Exception as e:
+            result.error("generic_param_rule: internal error %s: %s" % (type(e).__name__, e))
     anchor_filter(mod.PROP, result)
     return result
 
